@@ -27,6 +27,8 @@
 //!    registration lives for the ttl it was accepted with; a refresh lives for its *own* ttl);
 //!  * an ExpiredRegistration event names only a registration whose own ttl has elapsed (events of
 //!    superseded registrations at their own old deadline are accepted).
+//!  * every remembered cookie is re-presented after every step (clock advances / expiries in
+//!    between included) and must still not return anything its chain already returned.
 //! Left open (follows the store): whether a *new* registration within the limits is accepted,
 //! completeness of cookie / limit discoveries, answers to mismatching cookies.
 
@@ -154,6 +156,8 @@ pub struct Sys {
     cookies: Vec<CookieM>,
     /// store projection after the last step: discover-all answer + table sizes
     proj: (Vec<(u32, u8, u8)>, (usize, usize)),
+    /// what the store answers *now* to each remembered cookie (re-probed after every step)
+    cookie_proj: Vec<Option<Vec<u32>>>,
 }
 
 impl Sys {
@@ -165,7 +169,7 @@ impl Sys {
         mc::vclock::reset();
         libp2p_swarm::verif_delay::reset_registry();
         let cfg = Config::default().with_min_ttl(MIN_TTL).with_max_ttl(MAX_TTL).with_max_registration_per_peer(PER_PEER).with_max_registration_total(TOTAL);
-        let mut s = Sys { regs: VRegistrations::new(cfg), salt, now: 0, next_ident: 1, live: BTreeMap::new(), dead: BTreeMap::new(), deadlines: BTreeMap::new(), zombies: Vec::new(), cookies: Vec::new(), proj: (Vec::new(), (0, 0)) };
+        let mut s = Sys { regs: VRegistrations::new(cfg), salt, now: 0, next_ident: 1, live: BTreeMap::new(), dead: BTreeMap::new(), deadlines: BTreeMap::new(), zombies: Vec::new(), cookies: Vec::new(), proj: (Vec::new(), (0, 0)), cookie_proj: Vec::new() };
         s.drain();
         s
     }
@@ -380,6 +384,24 @@ impl Sys {
             }
         }
         self.proj = (regs, (r.sizes.0, r.sizes.1));
+        // ---- every remembered cookie is re-presented after every step (a client may come back with it
+        // at any time): "at most once per cookie chain" must hold whatever happened in between
+        // (expiries, unregistrations, refreshes); the answers are also part of the canonical key, so a
+        // store that silently forgot a cookie is not merged with one that still knows it
+        let mut cp = Vec::new();
+        for k in 0..self.cookies.len() {
+            let (wire, cns, used) = { let c = &self.cookies[k]; (c.wire.clone(), c.ns, c.returned.clone()) };
+            let r = self.call(Cmd::Get(cns, Some(wire), None))?;
+            match r.reply {
+                Reply::Get(Ok((mut regs, _))) => {
+                    regs.sort();
+                    self.check_discovery(&format!("re-presenting cookie #{k} (namespace {cns:?}) after {a:?}"), &regs, &used)?;
+                    cp.push(Some(regs.iter().map(|r| r.0).collect()));
+                }
+                _ => cp.push(None),
+            }
+        }
+        self.cookie_proj = cp;
         Ok(())
     }
 }
@@ -434,7 +456,8 @@ impl System for Sys {
         let mut z: Vec<u64> = self.zombies.iter().map(|d| d - self.now).collect();
         z.sort();
         let proj: Vec<(Option<(u8, u8)>, u8, u8)> = self.proj.0.iter().map(|(i, p, n)| (key_of(i), *p, *n)).collect();
-        format!("{live:?}|{cookies:?}|{z:?}|{proj:?}|{:?}", self.proj.1).into_bytes()
+        let cproj: Vec<Option<Vec<Option<(u8, u8)>>>> = self.cookie_proj.iter().map(|o| o.as_ref().map(|v| v.iter().map(key_of).collect())).collect();
+        format!("{live:?}|{cookies:?}|{z:?}|{proj:?}|{:?}|{cproj:?}", self.proj.1).into_bytes()
     }
     fn nontrivial(&self) -> bool {
         !self.live.is_empty()
